@@ -60,9 +60,9 @@ def build_and_run(cfgset):
     if vlib.ALT: cmd += ["--config", 'paths=["%s"]' % vlib.ALT_REPO]
     if cfgset: cmd += ["--features", ",".join(cfgset)]
     with vlib.Lock("cargo-fp"):
-        env = {"CARGO_NET_OFFLINE": "true", "RUSTFLAGS": "-Awarnings"}
+        env = {"CARGO_NET_OFFLINE": "true", "RUSTFLAGS": vlib.rustflags()}
         if CORPUS_DIR:
-            env = {"CARGO_NET_OFFLINE": "true", "RUSTFLAGS": "-Awarnings --cfg fp_corpus", "FP_CORPUS_DIR": CORPUS_DIR}
+            env = {"CARGO_NET_OFFLINE": "true", "RUSTFLAGS": vlib.rustflags("--cfg fp_corpus"), "FP_CORPUS_DIR": CORPUS_DIR}
         p = vlib.run(cmd, cwd=vlib.HARNESS, env=env)
         if p.returncode != 0:
             return None, p.stderr[-3000:]
